@@ -330,6 +330,7 @@ func Run(w *vt.Writer, mkClient, mkServer Maker, sc *Script, after func(l *wire.
 		}
 	}
 	serverStarted := false
+	heldFirst := -1 // lock-step + HoldFirstWrite: size of the server write already made during the handshake phase
 	startServerSide := func() {
 		sv.app = sr.c
 		res.ServerApp = sr.c
@@ -355,6 +356,26 @@ func Run(w *vt.Writer, mkClient, mkServer Maker, sc *Script, after func(l *wire.
 				if sc.S2C.HoldFirstWrite && !sc.Lock {
 					writers.Add(1)
 					go startWriter(sv, &writers, nil, nil)
+				} else if sc.S2C.HoldFirstWrite && len(sc.SW) > 0 {
+					// lock-step: the server application writes once right after its handshake; only then does
+					// the network release the response (+ seed frame + this data) to the client
+					n := sc.SW[0]
+					buf := make([]byte, n)
+					Fill("s2c", 0, buf)
+					w.Emit(vt.Ev{"event": "WriteCall", "d": "s2c", "n": n})
+					ret, err := sv.app.Write(buf)
+					ev := vt.Ev{"event": "WriteRet", "d": "s2c", "n": n, "ret": ret, "err": ""}
+					if err != nil {
+						ev["err"] = err.Error()
+					}
+					w.Emit(ev)
+					if err == nil {
+						atomic.AddInt64(&sv.wdone, int64(ret))
+					}
+					heldFirst = n
+					sv.once.Do(func() { close(sv.firstWr) })
+				} else if sc.S2C.HoldFirstWrite {
+					sv.once.Do(func() { close(sv.firstWr) })
 				}
 			}
 		case cr = <-cch:
@@ -418,6 +439,12 @@ func Run(w *vt.Writer, mkClient, mkServer Maker, sc *Script, after func(l *wire.
 		// strict alternation: client write, (quiesce), server write, (quiesce), ...
 		ci, si := 0, 0
 		coff, soff := 0, 0
+		if heldFirst >= 0 {
+			si, soff = 1, heldFirst
+			if sc.WaitQ && !quiesce() {
+				return finish()
+			}
+		}
 		doWrite := func(sd *side, n int, off *int) bool {
 			buf := make([]byte, n)
 			Fill(sd.dirOut, *off, buf)
@@ -443,7 +470,7 @@ func Run(w *vt.Writer, mkClient, mkServer Maker, sc *Script, after func(l *wire.
 		}
 		// if the s2c direction is held for the first server write, the server writes first
 		for ci < len(sc.CW) || si < len(sc.SW) {
-			if si < len(sc.SW) && (sc.S2C.HoldFirstWrite || ci >= len(sc.CW)) && (si <= ci || ci >= len(sc.CW)) {
+			if si < len(sc.SW) && ci >= len(sc.CW) {
 				if !doWrite(sv, sc.SW[si], &soff) {
 					return finish()
 				}
